@@ -144,7 +144,8 @@ def run_C11(w):
                 if i >> j & 1:
                     f |= 1 << KNOWN_BITS[j]
             words.append(f)
-    for _ in range(3000 if w.tier != 'thorough' else 20000):
+    # enum.IntFlag on 3.7/3.8 keeps every combination it has seen and scans them all: cost grows with the number of words
+    for _ in range(3000 if w.tier != 'thorough' else (20000 if V >= (3, 9) else 4000)):
         f = 0
         for b in KNOWN_BITS:
             if rng.random() < .3:
@@ -169,7 +170,7 @@ def run_C11(w):
     for name, _, _ in BASES:
         for b in range(31):
             inputs.append({'kind': 'header', 'base': name, 'xor': 1 << b})
-        for _ in range(60 if w.tier == 'quick' else 600):
+        for _ in range(60 if w.tier == 'quick' else (600 if V >= (3, 9) else 120)):
             x = 0
             for b in KNOWN_BITS + [26, 27, 30]:
                 if rng.random() < .2:
